@@ -18,9 +18,10 @@ if ! git -C /tmp/mut/repo apply "$P" 2>/tmp/mut/apply.err; then
   fi
 fi
 rm -rf /tmp/mut/engine && mkdir -p /tmp/mut/engine && cp -r /verif/engine/. /tmp/mut/engine/ && rm -rf /tmp/mut/engine/target
-sed -i 's|path = "/repo/fpdec-core"|path = "/tmp/mut/repo/fpdec-core"|; s|path = "/repo"|path = "/tmp/mut/repo"|' /tmp/mut/engine/fpmc/Cargo.toml
+sed -i 's|path = "/repo/fpdec-core"|path = "/tmp/mut/repo/fpdec-core"|; s|path = "/repo"|path = "/tmp/mut/repo"|' /tmp/mut/engine/fpmc/Cargo.toml /tmp/mut/engine/c20drv/Cargo.toml
+
 ( cd /tmp/mut/engine && CARGO_NET_OFFLINE=true CARGO_TARGET_DIR=/tmp/mut/target RUSTFLAGS="--cfg fpdec_verif" cargo build --release --offline ) >/tmp/mut/build.log 2>&1 || { echo "$(basename $D) BUILD-FAILED"; tail -5 /tmp/mut/build.log; exit 2; }
-out=$(VERIF_REPO=/tmp/mut/repo VERIF_OUT=/tmp/mut/out /tmp/mut/target/release/fpmc "$ID" "$TIER" 2>&1); rc=$?
+out=$(VERIF_REPO=/tmp/mut/repo VERIF_ENGINE=/tmp/mut/engine VERIF_OUT=/tmp/mut/out /tmp/mut/target/release/fpmc "$ID" "$TIER" 2>&1); rc=$?
 git -C /tmp/mut/repo checkout -q -f -- .
 nvio=$(echo "$out" | grep -c '^VIOLATION')
 echo "$(basename $D) check=$ID tier=$TIER exit=$rc violation_lines=$nvio"
